@@ -1,11 +1,16 @@
-(* C19 requests: 1900..1903. *)
+(* C19 requests: 1900..1905.
+   1900 adjust (value model)            [skew; off; langs]            -> langs
+   1901 ok_adjust                       [skew; off; langs; obs]       -> [ok; some caption optional?]
+   1902 merge_concurrent (value model)  langs                         -> result langs
+   1903 ok_merge                        [langs; obs1; obs2]           -> ok
+   1904 adjust_objs (object model)      [skew; off; heap; refs]       -> langs      (bad if a reference dangles)
+   1905 adjust_objs_prefix (pinned loop, applies the map once per listing) same args -> langs  *)
 From Coq Require Import List ZArith QArith Bool.
 From PV Require Import lib.Sx lib.Str lib.Result.
-From PV Require Import model.Base spec.SpecBase extract.OrCommon.
+From PV Require Import model.Base model.BaseObj spec.SpecBase extract.OrCommon.
 Import ListNotations.
 Open Scope Z_scope.
 
-(* ---- C19 ------------------------------------------------------------------ *)
 Definition req_c19_adjust (arg : sx) : sx :=
   match arg with
   | SL [sk; off; ls] =>
@@ -40,6 +45,20 @@ Definition req_c19_ok_merge (arg : sx) : sx :=
   | _ => bad
   end.
 
+Definition sx_nat (x : sx) : option nat :=
+  match x with SI z => if 0 <=? z then Some (Z.to_nat z) else None | _ => None end.
+Definition sx_refs := sx_listof (sx_listof sx_nat).
+
+Definition req_c19_adjust_objs (once : bool) (arg : sx) : sx :=
+  match arg with
+  | SL [sk; off; hp; rs] =>
+      match sx_q sk, sx_q off, sx_listof sx_cap hp, sx_refs rs with
+      | Some sk, Some off, Some h, Some refs =>
+          if refs_ok h refs then of_langs (adjust_objs_gen once sk off h refs) else bad
+      | _, _, _, _ => bad
+      end
+  | _ => bad
+  end.
 
 Definition dispatch (code : Z) (arg : sx) : option sx :=
   match code with
@@ -47,5 +66,7 @@ Definition dispatch (code : Z) (arg : sx) : option sx :=
   | 1901 => Some (req_c19_ok_adjust arg)
   | 1902 => Some (req_c19_merge arg)
   | 1903 => Some (req_c19_ok_merge arg)
+  | 1904 => Some (req_c19_adjust_objs true arg)
+  | 1905 => Some (req_c19_adjust_objs false arg)
   | _ => None
   end.
